@@ -246,6 +246,7 @@ Judge(a, e) ==
     [] e.op = "ser"                -> [f |-> F_ser(a, e), n |-> a]
     [] e.op = "debug"              -> [f |-> T(e.nonempty, "debug"), n |-> a]
     [] e.op = "convert"            -> [f |-> {}, n |-> a]
+    [] e.op = "clone_into"         -> [f |-> {}, n |-> a]
     [] OTHER                       -> [f |-> {"unknown_op"}, n |-> a]
 
 =============================================================================
